@@ -61,6 +61,12 @@ def cubic_bspline_value(x: float, derivative: int = 0) -> float:
         if t < 1:
             return 3 * t - 2
         return -t + 2
+    # 3rd order derivative (piecewise constant, right-continuous at the knots)
+    if derivative == 3:
+        if t < 1:
+            return 3.0 if x >= 0 else -3.0
+        return -1.0 if x >= 0 else 1.0
+    return 0
 
 
 def cubic_bspline(
